@@ -1,2 +1,249 @@
-import Balm
-def main : IO Unit := IO.println "balm"
+import Balm.Impl.Judge
+/-!
+# `balmdriver` – line protocol between the Python harness and the Lean model
+
+One command per input line, one reply line per command (batch: the harness writes all lines,
+closes stdin and reads all replies).  The definitions executed here are the ones the theorems
+of `Balm`/`BalmProofs` are about.
+-/
+open Balm Balm.Impl
+
+partial def parseE (toks : List String) : Option (BExpr × List String) :=
+  match toks with
+  | [] => none
+  | t :: rest =>
+    let bin (mk : BExpr → BExpr → BExpr) : Option (BExpr × List String) := do
+      let (a, r) ← parseE rest
+      let (b, r2) ← parseE r
+      pure (mk a b, r2)
+    match t with
+    | "T" => some (.const true, rest)
+    | "F" => some (.const false, rest)
+    | "!" => do let (a, r) ← parseE rest; pure (.not a, r)
+    | "&" => bin .and
+    | "|" => bin .or
+    | "^" => bin .xor
+    | "=" => bin .iff
+    | ">" => bin .imp
+    | "?" => do
+      let (a, r) ← parseE rest
+      let (b, r2) ← parseE r
+      let (c, r3) ← parseE r2
+      pure (.cond a b c, r3)
+    | v =>
+      if v.startsWith "v" then (v.drop 1).toNat?.map fun i => (.var i, rest) else none
+
+def showSpace {n : Nat} (p : Space n) : String :=
+  String.mk (p.toList.map fun c => match c with | none => '-' | some false => '0' | some true => '1')
+
+def showState {n : Nat} (s : State n) : String :=
+  String.mk (s.toList.map fun b => if b then '1' else '0')
+
+def parseSpace (n : Nat) (s : String) : Option (Space n) :=
+  let cs := s.toList
+  if cs.length == n && cs.all (fun c => c == '-' || c == '0' || c == '1') then
+    some (Vector.ofFn fun i : Fin n =>
+      match cs[i.val]? with
+      | some '0' => some false
+      | some '1' => some true
+      | _ => none)
+  else none
+
+def parseState (n : Nat) (s : String) : Option (State n) :=
+  let cs := s.toList
+  if cs.length == n && cs.all (fun c => c == '0' || c == '1') then
+    some (Vector.ofFn fun i : Fin n => cs[i.val]? == some '1')
+  else none
+
+def sortStrs (l : List String) : List String := (l.toArray.qsort (· < ·)).toList
+
+def optNat (x : String) : Option (Option Nat) :=
+  if x == "-" then some none else x.toNat?.map some
+
+structure Session where
+  n : Nat
+  ctx : Ctx n
+  diag : Diag n
+  atts : Option (List (List (State n)))
+
+def showOutcome : Outcome → String
+  | .ok true => "true"
+  | .ok false => "false"
+  | .err => "err"
+
+def dumpDiag {n : Nat} (d : Diag n) : String :=
+  let ns := (List.range d.size).map fun i =>
+    s!"{i}:{showSpace (d.space i)}:{d.depth i}:{if d.isExp i then 1 else 0}:{if d.skipped.contains i then 1 else 0}"
+  let ps := d.pairs.toArray.qsort (fun a b => a.1 < b.1 || (a.1 == b.1 && a.2 < b.2)) |>.toList
+  let es := ps.map fun (u, v) =>
+    let ms := (d.core.edges.filter fun e => e.1 == u && e.2.1 == v).map fun e => showSpace e.2.2
+    s!"{u}>{v}[{String.intercalate "," ms}]"
+  String.intercalate " " ns ++ " | " ++ String.intercalate " " es
+
+def getAtts (S : Session) : Session × List (List (State S.n)) :=
+  match S.atts with
+  | some a => (S, a)
+  | none =>
+    let a := attractors S.ctx.N
+    ({ S with atts := some a }, a)
+
+def showAttr {n : Nat} (A : List (State n)) : String :=
+  String.intercalate "," (sortStrs (A.map showState))
+
+def parseSpaces (n : Nat) (l : List String) : Option (List (Space n)) := l.mapM (parseSpace n)
+
+def parseDump (n : Nat) (toks : List String) : Option (Dump n) := do
+  let nodeToks := toks.takeWhile (· ≠ "|")
+  let edgeToks := (toks.dropWhile (· ≠ "|")).drop 1
+  let nodes ← nodeToks.mapM fun t =>
+    match t.splitOn ":" with
+    | [_, sp, dp, ex, sk] => do
+      let p ← parseSpace n sp
+      let d ← dp.toNat?
+      pure ({ space := p, depth := d, expanded := ex == "1", skipped := sk == "1" } : DNode n)
+    | _ => none
+  let edges ← edgeToks.mapM fun t =>
+    match t.splitOn ">" with
+    | [u, rest] =>
+      match rest.splitOn "[" with
+      | [v, ms] => do
+        let u ← u.toNat?
+        let v ← v.toNat?
+        let ms ← ((ms.dropRight 1).splitOn ",").mapM (parseSpace n)
+        pure (u, v, ms)
+      | _ => none
+    | _ => none
+  pure { nodes := nodes, edges := edges }
+
+def verdict (o : Option String) : String := match o with | none => "OK" | some r => "FAIL " ++ r
+
+def handle (S : Session) (toks : List String) : Session × String :=
+  let n := S.n
+  let N := S.ctx.N
+  let bad := (S, "bad")
+  match toks with
+  | ["PERC", sp] => match parseSpace n sp with
+    | some p => (S, showSpace (perc N p))
+    | none => bad
+  | ["ISTRAP", sp] => match parseSpace n sp with
+    | some p => (S, if isTrapB N p then "1" else "0")
+    | none => bad
+  | ["TRAPS"] => (S, String.intercalate " " (sortStrs ((trapSpaces N).map showSpace)))
+  | ["INPUTS"] => (S, String.intercalate " " ((inputs N).map fun i => toString i.val))
+  | ["MAX", sp, r] => match parseSpace n sp with
+    | some p => (S, String.intercalate " " ((sortedMax N p (if r == "1" then S.ctx.srcs else [])).map showSpace))
+    | none => bad
+  | ["MIN", sp] => match parseSpace n sp with
+    | some p => (S, String.intercalate " " (sortStrs ((minTrapsIn N p).map showSpace)))
+    | none => bad
+  | ["ATTRS"] =>
+    let (S', a) := getAtts S
+    (S', String.intercalate " | " (a.map showAttr))
+  | ["REACH", st] => match parseState n st with
+    | some s => (S, showAttr (reachSet N s))
+    | none => bad
+  | "OWNX" :: sp :: succs => match parseSpace n sp, parseSpaces n succs with
+    | some p, some qs =>
+      let (S', a) := getAtts S
+      let own := ownAttrs a p qs
+      (S', String.intercalate " " ((List.range a.length).filter (fun k => own.contains (a[k]?.getD [])) |>.map toString))
+    | _, _ => bad
+  | "CHECK" :: rest => match parseDump n rest with
+    | some d => (S, verdict (judgeStrict S.ctx d))
+    | none => bad
+  | "CHECKND" :: rest => match parseDump n rest with
+    | some d => (S, verdict (judgeStrict S.ctx d false))
+    | none => bad
+  | "LEAVES" :: rest => match parseDump n rest with
+    | some d => (S, verdict (judgeLeaves S.ctx d))
+    | none => bad
+  | "COMPLETE" :: rest => match parseDump n rest with
+    | some d => (S, verdict (judgeComplete d))
+    | none => bad
+  | "ADOPT" :: rest => match parseDump n rest with
+    | some d => ({ S with diag := d.toDiag }, "OK")
+    | none => bad
+  | ["CFG", lim] => match lim.toNat? with
+    | some L => ({ S with ctx := { S.ctx with motifLimit := L } }, "OK")
+    | none => bad
+  | ["SDINIT"] =>
+    let d := initDiag S.ctx
+    ({ S with diag := d }, dumpDiag d)
+  | ["DUMP"] => (S, dumpDiag S.diag)
+  | ["EXPAND", i] => match i.toNat? with
+    | some i =>
+      let (d, okk) := expandNode S.ctx S.diag i
+      ({ S with diag := d }, (if okk then "none " else "err ") ++ dumpDiag d)
+    | none => bad
+  | ["BFS", st, lv, sz] => match st.toNat?, optNat lv, optNat sz with
+    | some st, some lv, some sz =>
+      let (d, o) := expandBfs S.ctx S.diag st lv sz
+      ({ S with diag := d }, showOutcome o ++ " " ++ dumpDiag d)
+    | _, _, _ => bad
+  | ["DFS", st, lv, sz] => match st.toNat?, optNat lv, optNat sz with
+    | some st, some lv, some sz =>
+      let (d, o) := expandDfs S.ctx S.diag st lv sz
+      ({ S with diag := d }, showOutcome o ++ " " ++ dumpDiag d)
+    | _, _, _ => bad
+  | ["TARGET", sp, sz] => match parseSpace n sp, optNat sz with
+    | some t, some sz =>
+      let (d, o) := expandToTarget S.ctx S.diag t sz
+      ({ S with diag := d }, showOutcome o ++ " " ++ dumpDiag d)
+    | _, _ => bad
+  | "MINSP" :: st :: sz :: skip :: mins => match st.toNat?, optNat sz, parseSpaces n mins with
+    | some st, some sz, some ms =>
+      let (d, o) := expandMinimalWith S.ctx S.diag st sz (skip == "1") ms
+      ({ S with diag := d }, showOutcome o ++ " " ++ dumpDiag d)
+    | _, _, _ => bad
+  | "SKIPMIN" :: i :: mins => match i.toNat?, parseSpaces n mins with
+    | some i, some ms =>
+      let (d, r) := skipToMinimalWith S.ctx S.diag i ms
+      ({ S with diag := d }, (if r then "true " else "false ") ++ dumpDiag d)
+    | _, _ => bad
+  | "SKIPREM" :: mins => match parseSpaces n mins with
+    | some ms =>
+      let (d, k) := skipRemainingWith S.ctx S.diag ms
+      ({ S with diag := d }, toString k ++ " " ++ dumpDiag d)
+    | none => bad
+  | _ => bad
+
+def mkSession (n : Nat) (fns : List BExpr) : Option Session :=
+  if h : fns.length = n then
+    let es : Vector BExpr n := ⟨fns.toArray, by simpa using h⟩
+    let N := Net.ofExprs es
+    let ctx := Ctx.mk' N 100000
+    some { n := n, ctx := ctx, diag := initDiag ctx, atts := none }
+  else none
+
+def emptySession : Session :=
+  let N : Net 0 := Net.ofExprs #v[]
+  let ctx := Ctx.mk' N 100000
+  { n := 0, ctx := ctx, diag := initDiag ctx, atts := none }
+
+partial def loop (h : IO.FS.Stream) (out : IO.FS.Stream) (S : Session) : IO Unit := do
+  let line ← h.getLine
+  if line.isEmpty then return ()
+  let toks := (line.trim.splitOn " ").filter (· ≠ "")
+  match toks with
+  | [] => out.putStrLn "bad"; loop h out S
+  | "NET" :: nstr :: rest =>
+    match nstr.toNat? with
+    | none => out.putStrLn "bad"; loop h out S
+    | some n =>
+      let groups := (String.intercalate " " rest).splitOn ";"
+      let fns := groups.mapM fun g =>
+        match parseE ((g.trim.splitOn " ").filter (· ≠ "")) with
+        | some (e, []) => some e
+        | _ => none
+      match fns.bind (mkSession n) with
+      | some S' => out.putStrLn "OK"; loop h out S'
+      | none => out.putStrLn "bad"; loop h out S
+  | _ =>
+    let (S', reply) := handle S toks
+    out.putStrLn reply
+    loop h out S'
+
+def main : IO Unit := do
+  let out ← IO.getStdout
+  loop (← IO.getStdin) out emptySession
+  out.flush
